@@ -45,6 +45,7 @@ class Ctx:
         self.data = {}        # per-path tables of the domain layers (hash applications, encodings, ...)
         self.axiom_providers = []   # callables -> list of z3 facts used only in final obligations
         self.notes = []
+        self.inputs = []      # harness-level input variables (var, lo, hi): pinned by refutation hints
 
     # -- variables
     def fresh(self, name, lo=None, hi=None):
@@ -136,11 +137,26 @@ class Ctx:
         self.solver_s += time.time() - t
         return r, (s.model() if r == "sat" else None), s
 
-    def prove(self, claim, timeout_ms=60000, extra=()):
+    def refute_with_hints(self, claim, tries=3, timeout_ms=4000, extra=()):
+        """look for a counterexample with the harness inputs pinned to pool values (never part of a proof)"""
+        import random
+        rnd = random.Random(SEED * 7919 + len(self.pc))
+        claim = claim if z3.is_expr(claim) else B(claim)
+        for k in range(tries):
+            pins = []
+            for (v, lo, hi) in self.inputs:
+                val = lo if k == 0 else (min(hi, lo + 1) if k == 1 else rnd.randint(lo, hi))
+                pins.append(v == val)
+            r, m, _ = self.solve(z3.Not(claim), *pins, *extra, timeout_ms=timeout_ms, with_axioms=(k != 2))
+            if r == "sat":
+                return m
+        return None
+
+    def prove(self, claim, timeout_ms=60000, extra=(), retry=True):
         """verdict on  side & pc & axioms |= claim : 'unsat' means proved"""
         claim = claim if z3.is_expr(claim) else B(claim)
         r, m, s = self.solve(z3.Not(claim), *extra, timeout_ms=timeout_ms)
-        if r == "unknown":
+        if r == "unknown" and retry:
             # second configuration before giving up
             r2, m2, s2 = self.solve(z3.Not(claim), *extra, timeout_ms=timeout_ms,
                                     tactic=("simplify", "solve-eqs", "smt"))
@@ -479,7 +495,9 @@ class SymBytes:
     @classmethod
     def fresh(cls, name, n):
         c = Ctx.cur
-        return cls([c.fresh("%s_%d" % (name, i), 0, 255) for i in range(n)])
+        vs = [c.fresh("%s_%d" % (name, i), 0, 255) for i in range(n)]
+        c.inputs.extend((v, 0, 255) for v in vs)
+        return cls(vs)
 
     @classmethod
     def fresh_chunk(cls, name, n):
@@ -488,6 +506,7 @@ class SymBytes:
             return cls([])
         c = Ctx.cur
         v = c.fresh(name, 0, 256 ** n - 1)
+        c.inputs.append((v, 0, 256 ** n - 1))
         return cls([Chunk(v, n)])
 
     @classmethod
@@ -666,6 +685,8 @@ class SymBytes:
         return "SymBytes(len=%d)" % self._n
 
     def model_bytes(self, model):
+        if model is None:           # no model: a fixed pattern from the concretisation pool
+            return bytes((7 * i + 1) % 256 for i in range(self._n))
         out = bytearray()
         for v in self.items():
             if isinstance(v, int):
@@ -729,6 +750,8 @@ class SymHex:
         return "SymHex(len=%d)" % len(self)
 
 
-def model_int(model, term):
+def model_int(model, term, default=1):
+    if model is None:
+        return default
     v = model.eval(T(term), model_completion=True)
     return v.as_long()
